@@ -468,6 +468,10 @@ class Run:
         cov.setdefault("distinct_nontrivial", 0)
         cov["rule"] = getattr(self.mod, "RULE", "")
         cov["known_findings_hit"] = sorted(self.known_hits)
+        extra = getattr(self.mod, "EXTRA_COVERAGE", None)
+        if isinstance(extra, dict):  # measured numbers a property module wants in its evidence (e.g. exhaustive sweeps)
+            for k, v in extra.items():
+                cov.setdefault(k, v)
         cov["broken"] = [b[0] for b in self.broken]
         ev = {"property_id": self.pid, "tier": self.tier, "seed": self.seed, "level": "proof", "coverage": cov,
               "assumptions": getattr(self.mod, "ASSUMPTIONS", []), "wall_s": round(time.time() - self.t0, 2),
